@@ -54,22 +54,40 @@ Qed.
    the parts of the world a later rollback relies on and that no swap / restore /
    phase change touches *)
 Definition frame (w : world) :=
-  (option_map j_from (jr w), option_map j_to (jr w), snaps w, g_base w, g_fs0 w, g_clean w).
+  (option_map j_from (jr w), option_map j_to (jr w), snaps w, g_base w, g_fs0 w, g_clean w, cfg_stage_fix w).
 
 Definition frame4 (w : world) :=
   (option_map j_from (jr w), option_map j_to (jr w), snaps w, g_base w).
 Lemma frame_frame4 w w' : frame w' = frame w -> frame4 w' = frame4 w.
-Proof. unfold frame, frame4. intros H. injection H as -> -> -> -> _ _. reflexivity. Qed.
+Proof. unfold frame, frame4. intros H. injection H as -> -> -> -> _ _ _. reflexivity. Qed.
 
 Definition kx (w : world) := (g_fs0 w, g_clean w).
 
 Lemma kx_of_frame w w' : frame w' = frame w -> kx w' = kx w.
-Proof. unfold frame, kx. intros H. injection H as _ _ _ _ -> ->. reflexivity. Qed.
+Proof. unfold frame, kx. intros H. injection H as _ _ _ _ -> -> _. reflexivity. Qed.
+Lemma cfg_of_frame w w' : frame w' = frame w -> cfg_stage_fix w' = cfg_stage_fix w.
+Proof. unfold frame. intros H. now injection H. Qed.
 
 Lemma frame_set_phase w ph : frame (set_phase w ph) = frame w.
 Proof. unfold set_phase, frame. destruct (jr w) eqn:E; simpl; rewrite ?E; reflexivity. Qed.
 Lemma frame_set_fs w f : frame (set_fs w f) = frame w. Proof. reflexivity. Qed.
 Lemma frame_set_obst w o : frame (set_obst w o) = frame w. Proof. reflexivity. Qed.
+(* staging-name obstacles and leftovers appearing: nothing else moves *)
+Lemma install_stale_same l : forall w,
+  frame (install_stale w l) = frame w /\ cur (install_stale w l) = cur w /\ g_inst (install_stale w l) = g_inst w /\
+  fs (install_stale w l) = fs w /\ jr (install_stale w l) = jr w.
+Proof.
+  induction l as [|[p m] r IH]; simpl; intros w; [auto|].
+  destruct (IH (set_obst (set_stale w (upd (stale w) p (Some m))) (upd (obst w) p None))) as (A & B & C & D & E).
+  rewrite A, B, C, D, E. auto.
+Qed.
+Definition installed (w : world) (l : list (path * bool)) (l2 : list (path * N)) : world := install_stale (with_obs w l) l2.
+Lemma installed_same w l l2 :
+  frame (installed w l l2) = frame w /\ cur (installed w l l2) = cur w /\ g_inst (installed w l l2) = g_inst w /\
+  fs (installed w l l2) = fs w /\ jr (installed w l l2) = jr w.
+Proof. unfold installed. destruct (install_stale_same l2 (with_obs w l)) as (A & B & C & D & E). rewrite A, B, C, D, E. auto. Qed.
+Lemma frame_installed w l l2 : frame (install_stale (with_obs w l) l2) = frame w.
+Proof. apply (installed_same w l l2). Qed.
 Lemma frame_set_cur w c : frame (set_cur w c) = frame w. Proof. reflexivity. Qed.
 Lemma frame_set_ginst w c : frame (set_ginst w c) = frame w. Proof. reflexivity. Qed.
 Lemma frame_restore_curm v w d : frame (restore_curm v w d) = frame w.
@@ -98,19 +116,24 @@ Lemma swap_artifact_frame w src p m w' b :
 Proof.
   unfold swap_artifact. intros H.
   destruct src; [destruct (obst w p)|]; [inv H; auto| |inv H; auto].
-  destruct (new_mode m); [|inv H; auto].
+  destruct (staged_mode w p m); [|inv H; auto].
   destruct (fs w p) as [[| |]|]; inv H; auto.
 Qed.
 
+(* a swap that succeeds installs the bytes; the mode is the manifest's — unless a stale staging file is reused
+   (only possible without the repair, and only visible when the manifest gives no mode) *)
 Lemma swap_artifact_ok w src p m w' :
   swap_artifact w src p m = (w', true) ->
-  exists c mm, src = Some c /\ new_mode m = Some mm /\
+  exists c mm, src = Some c /\ (cfg_stage_fix w = true \/ m <> MEmpty -> new_mode m = Some mm) /\
                fs w' = upd (fs w) p (Some (Reg c mm)) /\ obst w' = obst w.
 Proof.
   unfold swap_artifact. intros H.
   destruct src as [c|]; [destruct (obst w p)|]; [inv H| |inv H].
-  destruct (new_mode m) as [mm|]; [|inv H].
-  exists c, mm. destruct (fs w p) as [[| |]|]; inv H; auto.
+  destruct (staged_mode w p m) as [mm|] eqn:Em; [|inv H].
+  exists c, mm. split; [reflexivity|]. split.
+  - intros Hc. unfold staged_mode in Em. destruct Hc as [Hc|Hc]; [now rewrite Hc in Em|].
+    destruct (if cfg_stage_fix w then None else stale w p); [destruct m; congruence|assumption].
+  - destruct (fs w p) as [[| |]|]; inv H; auto.
 Qed.
 
 (* a swap that fails leaves every artifact as it was *)
@@ -119,9 +142,12 @@ Lemma swap_artifact_fail_fs w src p m w' :
 Proof.
   unfold swap_artifact. intros H.
   destruct src; [destruct (obst w p)|]; [inv H; auto| |inv H; auto].
-  destruct (new_mode m); [|inv H; auto].
+  destruct (staged_mode w p m); [|inv H; auto].
   destruct (fs w p) as [[| |]|]; inv H; auto.
 Qed.
+
+Lemma cfg_set_phase w ph : cfg_stage_fix (set_phase w ph) = cfg_stage_fix w.
+Proof. apply cfg_of_frame, frame_set_phase. Qed.
 
 (* ------------------------------------------------------------------ swap loop *)
 Lemma swap_loop_frame arts : forall w w' b,
@@ -139,16 +165,20 @@ Proof.
 Qed.
 
 Lemma swap_loop_ok arts : forall w w',
-  swap_loop w arts = (w', true) -> NoDup (map a_path arts) ->
+  swap_loop w arts = (w', true) -> NoDup (map a_path arts) -> cfg_stage_fix w = true ->
   (forall a, In a arts -> exists mm, new_mode (a_mode a) = Some mm /\
                                      fs w' (a_path a) = Some (Reg (a_content a) mm)) /\
   (forall p, ~ In p (map a_path arts) -> fs w' p = fs w p).
 Proof.
-  induction arts as [|a r IH]; simpl; intros w w' H Hnd.
+  induction arts as [|a r IH]; simpl; intros w w' H Hnd Hcfg.
   - inv H. split; [intros ? []|auto].
   - destruct (swap_artifact _ _ _ _) as [w2 ok] eqn:E. destruct ok; [|discriminate].
+    pose proof (swap_artifact_frame _ _ _ _ _ _ E) as (Ef & _ & _).
     apply swap_artifact_ok in E as (c & mm & Hc & Hm & Hfs & _). inv Hc.
-    apply NoDup_cons_iff in Hnd as [Hn1 Hn2]. apply IH in H as [I1 I2]; [|assumption].
+    assert (Hm' : new_mode (a_mode a) = Some mm) by (apply Hm; left; now rewrite cfg_set_phase).
+    clear Hm. rename Hm' into Hm.
+    apply NoDup_cons_iff in Hnd as [Hn1 Hn2]. apply IH in H as [I1 I2]; [|assumption|].
+    2:{ rewrite cfg_set_phase, (cfg_of_frame _ _ Ef), cfg_set_phase. exact Hcfg. }
     rewrite fs_set_phase, Hfs, fs_set_phase in I2.
     split.
     + intros a' [<-|Hin]; [|auto].
@@ -272,7 +302,9 @@ Proof.
       - destruct (swap_artifact _ _ _ _) as [w1 ok] eqn:E. destruct ok; [|discriminate].
         apply swap_artifact_ok in E as (c & mm & Hc & Hm & Hfs & _).
         destruct fe as [[c0 m0| |]|]; simpl in Hk; rewrite ?Ek in Hk; try discriminate; try tauto.
-        destruct Hk as [Hk1 Hk2]. inv Hk1. simpl in Hm. inv Hm.
+        destruct Hk as [Hk1 Hk2]. inv Hk1.
+        assert (Hm' : new_mode (MFull (rec_mode v m0)) = Some mm) by (apply Hm; right; discriminate).
+        simpl in Hm'. inv Hm'.
         exists w1. split; [exact H|]. rewrite Hfs. simpl. congruence. }
     destruct Hstep as (w1 & Hrest & Hfs1).
     destruct (IH _ _ Hr Hrest) as [I1 I2].
@@ -293,7 +325,7 @@ Definition snap_ok (v : variant) (w : world) (base : list (path * option file)) 
     entries_ok v (s_bak d) es base /\ functional base /\
     (v_curm_fix v = true -> s_curm d = curm_of vi).
 
-Definition Inv (v : variant) (w : world) : Prop :=
+Definition Inv0 (v : variant) (w : world) : Prop :=
   match g_base w with
   | Some (true, base, _) => exists fr, snap_ok v w base fr
   | Some (false, _, _) => option_map j_phase (jr w) = Some PStarted   (* nothing modified yet *)
@@ -308,18 +340,18 @@ Qed.
 Lemma snap_ok_frame v w w' base vi : frame w' = frame w -> snap_ok v w base vi -> snap_ok v w' base vi.
 Proof. intros H. apply snap_ok_frame4. now apply frame_frame4. Qed.
 
-(* Inv survives anything that keeps the frame, provided the journal is untouched or a snapshot is recorded *)
+(* Inv0 survives anything that keeps the frame, provided the journal is untouched or a snapshot is recorded *)
 Lemma Inv_frame4 v w w' : frame4 w' = frame4 w ->
-  (jr w' = jr w \/ exists b gi, g_base w = Some (true, b, gi)) -> Inv v w -> Inv v w'.
+  (jr w' = jr w \/ exists b gi, g_base w = Some (true, b, gi)) -> Inv0 v w -> Inv0 v w'.
 Proof.
-  unfold Inv. intros Hf Hj. assert (Hg : g_base w' = g_base w) by (unfold frame4 in Hf; now injection Hf).
+  unfold Inv0. intros Hf Hj. assert (Hg : g_base w' = g_base w) by (unfold frame4 in Hf; now injection Hf).
   rewrite Hg. destruct (g_base w) as [[[[] base] vi]|] eqn:Eg.
   - intros [fr Hs]. exists fr. now apply (snap_ok_frame4 v w w').
   - destruct Hj as [->|(b & gi & Hb)]; [auto|discriminate].
   - destruct Hj as [->|(b & gi & Hb)]; [auto|discriminate].
 Qed.
 Lemma Inv_frame v w w' : frame w' = frame w ->
-  (jr w' = jr w \/ exists b gi, g_base w = Some (true, b, gi)) -> Inv v w -> Inv v w'.
+  (jr w' = jr w \/ exists b gi, g_base w = Some (true, b, gi)) -> Inv0 v w -> Inv0 v w'.
 Proof. intros H. apply Inv_frame4. now apply frame_frame4. Qed.
 
 (* ------------------------------------------------------------------ rollback *)
@@ -333,7 +365,7 @@ Proof.
   destruct (s_meta d) as [[nv es]|]; [|now inv H].
   destruct (seq_oc _); try (now inv H).
   destruct (restore_loop _ _ _) as [w2 ok] eqn:Er.
-  apply restore_loop_frame in Er as (Er & _). rewrite frame_set_obst in Er.
+  apply restore_loop_frame in Er as (Er & _). rewrite frame_installed in Er.
   destruct ok; simpl in H; [|inv H; now rewrite frame_set_phase].
   destruct (if nv then vpp_seq F 10 else OGo);
     [destruct (seq_oc _); [destruct (f_hr F)| |]| |];
@@ -396,7 +428,7 @@ Qed.
 
 Definition post_ok (v : variant) (T : tarball) (from : ver) (base : list (path * option file))
            (w7 w' : world) (r : res) : Prop :=
-  Inv v w' /\ g_base w' = g_base w7 /\ r <> RErr /\
+  Inv0 v w' /\ g_base w' = g_base w7 /\ r <> RErr /\
   (r = ROk -> fs w' = fs w7 /\ cur w' = t_to T /\ g_inst w' = t_to T /\
               option_map j_phase (jr w') = Some PCompleted) /\
   (r = RErrRolledBack -> (forall p f, In (p, f) base -> fs w' p = normf v f) /\
@@ -408,9 +440,9 @@ Lemma post_swap_spec v T F from w7 w' r base gi :
   post_ok v T from base w7 w' r.
 Proof.
   unfold post_swap. intros H Hg Hs.
-  assert (Hinv : forall wx, frame wx = frame w7 -> Inv v wx /\ g_base wx = g_base w7).
+  assert (Hinv : forall wx, frame wx = frame w7 -> Inv0 v wx /\ g_base wx = g_base w7).
   { intros wx Hf. split; [|now apply gbase_of_frame].
-    unfold Inv. rewrite (gbase_of_frame _ _ Hf), Hg. exists from. eapply snap_ok_frame; eauto. }
+    unfold Inv0. rewrite (gbase_of_frame _ _ Hf), Hg. exists from. eapply snap_ok_frame; eauto. }
   assert (Hcrash : forall wx, frame wx = frame w7 -> post_ok v T from base w7 wx RCrash).
   { intros wx Hf. destruct (Hinv wx Hf). unfold post_ok. splits; auto; discriminate. }
   assert (Hauto : forall wa, frame wa = frame w7 -> auto_rollback v F wa = (w', r) ->
@@ -447,8 +479,8 @@ Proof.
   { inv H. now apply Hcrash. }
   assert (G10 : g_base (prune w9 from) = g_base w7).
   { unfold prune; simpl. now apply gbase_of_frame. }
-  assert (I10 : Inv v (prune w9 from)).
-  { unfold Inv. rewrite G10, Hg. exists from. apply snap_ok_prune. eapply snap_ok_frame; eauto. }
+  assert (I10 : Inv0 v (prune w9 from)).
+  { unfold Inv0. rewrite G10, Hg. exists from. apply snap_ok_prune. eapply snap_ok_frame; eauto. }
   assert (Hfs : fs (prune w9 from) = fs w7).
   { unfold prune, w9. simpl. rewrite fs_set_phase. simpl. apply fs_set_phase. }
   destruct (crash_at F 34); inv H; unfold post_ok; splits; auto; try discriminate.
@@ -471,9 +503,9 @@ Definition as_post (v : variant) (T : tarball) (base : list (path * option file)
 
 Lemma after_snapshot_spec v T F jf w2 w' r base gi :
   after_snapshot v T F jf w2 = (w', r) -> NoDup (map a_path (t_arts T)) ->
-  g_base w2 = Some (true, base, gi) -> snap_ok v w2 base jf -> as_post v T base jf w2 w' r.
+  g_base w2 = Some (true, base, gi) -> snap_ok v w2 base jf -> cfg_stage_fix w2 = true -> as_post v T base jf w2 w' r.
 Proof.
-  unfold after_snapshot. intros H Hnd Hg2 Hs2.
+  unfold after_snapshot. intros H Hnd Hg2 Hs2 Hcfg.
   assert (Hmid : forall wx rr, frame wx = frame w2 -> rr = RCrash \/ (rr = RErr /\ fs wx = fs w2 /\ cur wx = cur w2) ->
                                as_post v T base jf w2 wx rr).
   { intros wx rr Hf Hr. unfold as_post. splits.
@@ -493,12 +525,13 @@ Proof.
   destruct (crash_at F 29); [inv H; apply Hmid; [now rewrite !frame_set_phase|auto]|].
   destruct (swap_loop _ _) as [w7 sok] eqn:Esw.
   pose proof (swap_loop_frame _ _ _ _ Esw) as (F7 & C7 & G7).
-  rewrite frame_set_obst, !frame_set_phase in F7.
+  rewrite frame_installed, !frame_set_phase in F7.
   destruct sok; simpl in H.
-  - apply swap_loop_ok in Esw as [Sw1 Sw2]; [|assumption].
+  - apply swap_loop_ok in Esw as [Sw1 Sw2]; [|assumption|].
+    2:{ rewrite (cfg_of_frame _ _ (frame_installed _ _ _)), !cfg_set_phase. exact Hcfg. }
     apply (post_swap_spec v T F jf w7 w' r base gi) in H.
     + destruct H as (P1 & P2 & P3 & P4 & P5). unfold as_post. splits; auto.
-      * unfold Inv in P1. rewrite P2, (gbase_of_frame _ _ F7), Hg2 in P1. exact P1.
+      * unfold Inv0 in P1. rewrite P2, (gbase_of_frame _ _ F7), Hg2 in P1. exact P1.
       * rewrite P2. now apply gbase_of_frame.
       * intros Hr. destruct (P4 Hr) as (Q1 & Q2 & Q3 & Q4). splits; auto.
         intros a Ha. rewrite Q1. now apply Sw1.
@@ -520,7 +553,7 @@ Qed.
 (* ---- the whole apply, relative to a baseline (base, bv) and the snapshot key jf ---- *)
 Definition apply_post (v : variant) (T : tarball) (base : list (path * option file)) (bv jf : ver)
            (w w' : world) (r : res) : Prop :=
-  Inv v w' /\
+  Inv0 v w' /\
   (r = ROk -> (forall a, In a (t_arts T) -> exists mm, new_mode (a_mode a) = Some mm /\
                           fs w' (a_path a) = Some (Reg (a_content a) mm)) /\
               cur w' = t_to T /\ g_inst w' = t_to T /\
@@ -539,7 +572,7 @@ Lemma as_post_apply_post v T base bv jf w w2 w' r :
   (v_same_fix v = true -> forall p f, In (p, f) base -> In p (map a_path (t_arts T))) ->
   apply_post v T base bv jf w w' r.
 Proof.
-  intros (A1 & A2 & A3 & A4 & A5) Hg Hf Hc Hsub. unfold apply_post, Inv. rewrite A2, Hg.
+  intros (A1 & A2 & A3 & A4 & A5) Hg Hf Hc Hsub. unfold apply_post, Inv0. rewrite A2, Hg.
   split; [exact A1|]. split; [intros Hr; destruct (A3 Hr) as (B1 & B2 & B3 & B4); splits; auto|]. split; [|split; [|split]].
   - intros Hr. destruct (A4 Hr). splits; auto.
   - intros Hr. destruct (A5 Hr). split; congruence.
@@ -562,6 +595,10 @@ Proof.
   - simpl. intros ->. reflexivity.
 Qed.
 
+Lemma do_snapshot_cfg v w from arts w1 ok :
+  do_snapshot v w from arts = (w1, ok) -> cfg_stage_fix w1 = cfg_stage_fix w.
+Proof. unfold do_snapshot. intros H. destruct (snap_loop _ _ _ _) as [b [l|]]; inv H; reflexivity. Qed.
+
 Lemma do_snapshot_nocurm_same v w from arts :
   let w1 := do_snapshot_nocurm v w from arts in
   jr w1 = jr w /\ fs w1 = fs w /\ cur w1 = cur w /\ g_inst w1 = g_inst w /\ g_base w1 = g_base w /\ kx w1 = kx w.
@@ -570,20 +607,21 @@ Proof.
 Qed.
 
 Lemma fresh_flow_spec v T F w w' r :
-  fresh_flow v T F w = (w', r) -> resume w = false -> NoDup (map a_path (t_arts T)) ->
+  fresh_flow v T F w = (w', r) -> resume w = false -> NoDup (map a_path (t_arts T)) -> cfg_stage_fix w = true ->
   apply_post v T (base_of w (t_arts T)) (cur w) (cur w) w w' r.
 Proof.
-  unfold fresh_flow. intros H Hres Hnd. rewrite Hres in H. simpl in H.
+  unfold fresh_flow. intros H Hres Hnd Hcfg. rewrite Hres in H. simpl in H.
   set (base := base_of w (t_arts T)) in *.
   set (w0 := set_gfs0 _ _ _) in H.
   assert (Htriv : forall wx rr, g_base wx = Some (false, base, cur w) -> option_map j_phase (jr wx) = Some PStarted ->
       rr = RCrash \/ rr = RErr -> fs wx = fs w /\ cur wx = cur w -> apply_post v T base (cur w) (cur w) w wx rr).
-  { intros wx rr Hg Hp Hr Hsame. unfold apply_post, Inv. rewrite Hg. splits; auto.
+  { intros wx rr Hg Hp Hr Hsame. unfold apply_post, Inv0. rewrite Hg. splits; auto.
     - intros ->. destruct Hr; discriminate.
     - intros ->. destruct Hr; discriminate.
     - intros b gi Hb. discriminate. }
   destruct (crash_at F 25); [inv H; apply Htriv; auto|].
   destruct (do_snapshot v w0 (cur w) (t_arts T)) as [w1 ok] eqn:Es.
+  pose proof (do_snapshot_cfg _ _ _ _ _ _ Es) as Scfg.
   apply do_snapshot_spec in Es as (S1 & S2 & S3 & S4 & S5 & S6 & S7).
   destruct ok; simpl in H.
   2:{ inv H. apply Htriv; [rewrite S6; reflexivity|rewrite S1; reflexivity|right; reflexivity|split; auto]. }
@@ -605,6 +643,8 @@ Proof.
   assert (Hfs2 : fs w2 = fs w /\ cur w2 = cur w).
   { unfold w2. rewrite fs_set_phase, cur_set_phase. simpl. split; assumption. }
   destruct Hfs2.
+  assert (Hcfg2 : cfg_stage_fix w2 = true).
+  { unfold w2. rewrite cfg_set_phase. simpl. rewrite Scfg. exact Hcfg. }
   eapply as_post_apply_post; eauto; [eapply after_snapshot_spec; eauto|].
   intros _ p f Hin. unfold base, base_of in Hin. apply in_map_iff in Hin as (a & Ea & Ha). inv Ea. now apply in_map.
 Qed.
@@ -620,10 +660,10 @@ Lemma keep_flow_spec v T F w w' r j d nv es base bv :
   keep_flow v T F w j d nv es = (w', r) -> NoDup (map a_path (t_arts T)) ->
   jr w = Some j -> snaps w (j_from j) = Some d -> s_meta d = Some (nv, es) ->
   g_base w = Some (true, base, bv) -> snap_ok v w base (j_from j) ->
-  (v_same_fix v = true -> covered_rev es (t_arts T) = true) ->
+  (v_same_fix v = true -> covered_rev es (t_arts T) = true) -> cfg_stage_fix w = true ->
   apply_post v T base bv (j_from j) w w' r.
 Proof.
-  unfold keep_flow. intros H Hnd Hj Hd Hm Hg Hs Hrev.
+  unfold keep_flow. intros H Hnd Hj Hd Hm Hg Hs Hrev Hcfg.
   assert (Hsub : v_same_fix v = true -> forall p f, In (p, f) base -> In p (map a_path (t_arts T))).
   { intros Hsf p f Hin. destruct Hs as (d0 & nv0 & es0 & _ & H2 & H3 & [_ E2] & _).
     rewrite Hd in H2. inv H2. rewrite Hm in H3. inv H3.
@@ -634,7 +674,7 @@ Proof.
   assert (Hs0 : snap_ok v w0 base (j_from j)).
   { destruct Hs as (d0 & nv0 & es0 & H1 & H2 & H3). exists d0, nv0, es0. unfold w0. simpl. auto. }
   destruct (crash_at F 25).
-  { inv H. unfold apply_post, Inv. simpl. rewrite Hg. splits; try discriminate.
+  { inv H. unfold apply_post, Inv0. simpl. rewrite Hg. splits; try discriminate.
     - exists (j_from j). exact Hs0.
     - intros b gi Hb. now inv Hb. }
   set (w1 := set_snaps w0 _) in H.
@@ -659,10 +699,10 @@ Definition baseline_of (w : world) (T : tarball) : list (path * option file) * v
 Definition snapkey_of (w : world) : ver :=
   if resume w then match jr w with Some j => j_from j | None => cur w end else cur w.
 
-Lemma resume_Inv v w : Inv v w -> resume w = true ->
+Lemma resume_Inv v w : Inv0 v w -> resume w = true ->
   exists j base bv, jr w = Some j /\ g_base w = Some (true, base, bv) /\ snap_ok v w base (j_from j).
 Proof.
-  unfold Inv, resume. intros Hi Hr. destruct (jr w) as [j|] eqn:Ej; [|discriminate].
+  unfold Inv0, resume. intros Hi Hr. destruct (jr w) as [j|] eqn:Ej; [|discriminate].
   destruct (g_base w) as [[[[] base] bv]|].
   - destruct Hi as [fr Hs]. exists j, base, bv. split; [reflexivity|]. split; [reflexivity|].
     destruct Hs as (d & nv & es & H1 & H2). try rewrite Ej in H1. simpl in H1. inv H1. exists d, nv, es.
@@ -672,11 +712,11 @@ Proof.
 Qed.
 
 Lemma apply_flow_spec v T F w w' r :
-  v_keep_fix v = true -> Inv v w ->
-  apply_flow v T F w = (w', r) -> NoDup (map a_path (t_arts T)) ->
+  v_keep_fix v = true -> Inv0 v w ->
+  apply_flow v T F w = (w', r) -> NoDup (map a_path (t_arts T)) -> cfg_stage_fix w = true ->
   apply_post v T (fst (baseline_of w T)) (snd (baseline_of w T)) (snapkey_of w) w w' r.
 Proof.
-  intros Hk Hi H Hnd. unfold apply_flow in H. rewrite Hk in H. simpl in H.
+  intros Hk Hi H Hnd Hcfg. unfold apply_flow in H. rewrite Hk in H. simpl in H.
   unfold baseline_of, snapkey_of.
   destruct (resume w) eqn:Hr; [|now apply (fresh_flow_spec v T F)].
   destruct (resume_Inv _ _ Hi Hr) as (j & base & bv & Hj & Hg & Hs).
@@ -704,11 +744,11 @@ Definition apply_post_w (v : variant) (T : tarball) (w w' : world) (r : res) : P
   apply_post v T (fst (baseline_of w T)) (snd (baseline_of w T)) (snapkey_of w) w w' r.
 
 Lemma apply_spec v T Q F w w' r :
-  v_keep_fix v = true -> apply v T Q F w = (w', r) -> Inv v w ->
-  Inv v w' /\ (admits T Q w = false -> w' = w /\ r = RErr) /\ (admits T Q w = true -> apply_post_w v T w w' r).
+  v_keep_fix v = true -> apply v T Q F w = (w', r) -> Inv0 v w -> cfg_stage_fix w = true ->
+  Inv0 v w' /\ (admits T Q w = false -> w' = w /\ r = RErr) /\ (admits T Q w = true -> apply_post_w v T w w' r).
 Proof.
-  unfold apply. intros Hk H Hi. destruct (admits T Q w) eqn:Ea.
-  - pose proof (apply_flow_spec _ _ _ _ _ _ Hk Hi H (admits_nodup _ _ _ Ea)) as Hp.
+  unfold apply. intros Hk H Hi Hcfg. destruct (admits T Q w) eqn:Ea.
+  - pose proof (apply_flow_spec _ _ _ _ _ _ Hk Hi H (admits_nodup _ _ _ Ea) Hcfg) as Hp.
     splits; [apply Hp|discriminate|auto].
   - inv H. splits; auto. discriminate.
 Qed.
@@ -736,43 +776,102 @@ Qed.
 
 (* a rollback that reports success found a completed snapshot of the baseline *)
 Lemma rollback_ok_baseline v F w w' :
-  v_stale_fix v = true -> Inv v w -> rollback_flow v F w = (w', RbOk) ->
+  v_stale_fix v = true -> Inv0 v w -> rollback_flow v F w = (w', RbOk) ->
   exists base gi, g_base w = Some (true, base, gi).
 Proof.
-  intros Hst Hi H. unfold Inv in Hi. unfold rollback_flow in H.
+  intros Hst Hi H. unfold Inv0 in Hi. unfold rollback_flow in H.
   destruct (jr w) as [j|] eqn:Ej; [|discriminate].
   destruct (g_base w) as [[[[] base] gi]|]; [eauto| |discriminate].
   simpl in Hi. inv Hi. rewrite Hst, H1 in H. discriminate.
 Qed.
 
 Lemma rollback_step_spec v F w w' r :
-  rollback_flow v F w = (w', r) -> Inv v w -> v_mode_fix v = true -> v_stale_fix v = true ->
-  Inv v w' /\ g_base w' = g_base w /\
+  rollback_flow v F w = (w', r) -> Inv0 v w -> v_mode_fix v = true -> v_stale_fix v = true ->
+  Inv0 v w' /\ g_base w' = g_base w /\
   (r = RbOk -> exists base gi, g_base w = Some (true, base, gi) /\ forall p f, In (p, f) base -> fs w' p = f).
 Proof.
   intros H Hi Hv Hst. pose proof (rollback_frame _ _ _ _ _ H) as Hf.
-  assert (Hinv : Inv v w').
+  assert (Hinv : Inv0 v w').
   { destruct (g_base w) as [[[[] b] gi]|] eqn:Eg.
     - eapply Inv_frame; eauto.
-    - unfold Inv in Hi. rewrite Eg in Hi. unfold rollback_flow in H.
-      destruct (jr w) as [j|] eqn:Ej; [|inv H; unfold Inv; now rewrite Eg, Ej].
-      simpl in Hi. inv Hi. rewrite Hst, H1 in H. simpl in H. inv H. unfold Inv. rewrite Eg, Ej. simpl. now rewrite H1.
-    - unfold Inv in Hi. rewrite Eg in Hi. unfold rollback_flow in H. rewrite Hi in H. inv H.
-      unfold Inv. now rewrite Eg. }
+    - unfold Inv0 in Hi. rewrite Eg in Hi. unfold rollback_flow in H.
+      destruct (jr w) as [j|] eqn:Ej; [|inv H; unfold Inv0; now rewrite Eg, Ej].
+      simpl in Hi. inv Hi. rewrite Hst, H1 in H. simpl in H. inv H. unfold Inv0. rewrite Eg, Ej. simpl. now rewrite H1.
+    - unfold Inv0 in Hi. rewrite Eg in Hi. unfold rollback_flow in H. rewrite Hi in H. inv H.
+      unfold Inv0. now rewrite Eg. }
   splits; [assumption|now apply gbase_of_frame|].
   intros ->. destruct (rollback_ok_baseline _ _ _ _ Hst Hi H) as (base & gi & Hg).
   exists base, gi. split; [assumption|].
-  unfold Inv in Hi. rewrite Hg in Hi. destruct Hi as [fr Hs].
+  unfold Inv0 in Hi. rewrite Hg in Hi. destruct Hi as [fr Hs].
   destruct (rollback_ok_restores _ _ _ _ _ _ Hs H) as [R1 _].
   intros p f Hin. rewrite (R1 p f Hin). now apply normf_fixed.
 Qed.
 
-Lemma step_spec v w o w' r m :
-  fixedv v -> step v w o = (w', (r, m)) -> Inv v w -> Inv v w' /\ m <> MonMixed.
+(* ---- the invariant carried along histories: Inv0 plus "swapArtifact discards stale staging files" ---- *)
+Definition Inv (v : variant) (w : world) : Prop := Inv0 v w /\ cfg_stage_fix w = true.
+
+Lemma after_snapshot_cfg v T F from w2 w' r : after_snapshot v T F from w2 = (w', r) -> cfg_stage_fix w' = cfg_stage_fix w2.
 Proof.
-  intros (Hv & _ & Hk & Hst & Hsf) H Hi. destruct o as [T Q F|F| |p f]; simpl in H.
+  intros H. unfold after_snapshot in H.
+  assert (P : forall wx, frame wx = frame w2 -> cfg_stage_fix wx = cfg_stage_fix w2) by (intros; now apply cfg_of_frame).
+  assert (A : forall wa, frame wa = frame w2 -> auto_rollback v F wa = (w', r) -> cfg_stage_fix w' = cfg_stage_fix w2).
+  { intros wa Hf Ha. unfold auto_rollback in Ha. destruct (crash_at F 52); [inv Ha; auto|].
+    destruct (rollback_flow v F wa) as [w1 rr] eqn:E. pose proof (rollback_frame _ _ _ _ _ E) as Hf1.
+    destruct rr; inv Ha; rewrite ?cfg_set_phase; apply P; congruence. }
+  destruct (crash_at F 26); [inv H; auto|].
+  destruct (t_hook_ok T); simpl in H; [|inv H; auto].
+  destruct (seq_oc _); try (inv H; apply P, frame_set_phase).
+  destruct (seq_oc _); try (inv H; apply P; now rewrite !frame_set_phase).
+  destruct (crash_at F 29); [inv H; apply P; now rewrite !frame_set_phase|].
+  destruct (swap_loop _ _) as [w7 sok] eqn:Esw.
+  apply swap_loop_frame in Esw as (F7 & _ & _). rewrite frame_installed, !frame_set_phase in F7.
+  destruct sok; simpl in H.
+  - unfold post_swap in H.
+    destruct (if needs_vpp (t_arts T) then vpp_seq F 0 else OGo);
+      [|apply (A _ (eq_trans (frame_set_phase _ _) F7) H)|inv H; now apply P].
+    destruct (seq_oc _); [|apply (A _ (eq_trans (frame_set_phase _ _) F7) H)|inv H; now apply P].
+    destruct (crash_at F 31); [inv H; apply P; now rewrite frame_set_phase|].
+    destruct (f_ha F); simpl in H.
+    2:{ destruct (crash_at F 53); [inv H; apply P; now rewrite frame_set_phase|].
+        apply (A _ (eq_trans (frame_set_phase _ _) (eq_trans (frame_set_phase _ _) F7)) H). }
+    destruct (crash_at F 32); [inv H; apply P; now rewrite frame_set_phase|].
+    destruct (crash_at F 35); [inv H; simpl; rewrite cfg_set_phase; now apply P|].
+    destruct (crash_at F 33); [inv H; rewrite cfg_set_phase; simpl; rewrite cfg_set_phase; now apply P|].
+    destruct (crash_at F 34); inv H; unfold prune; simpl; rewrite cfg_set_phase; simpl; rewrite cfg_set_phase; now apply P.
+  - destruct (crash_at F 51); [inv H; now apply P|]. apply (A _ (eq_trans (frame_set_phase _ _) F7) H).
+Qed.
+
+Lemma step_cfg v w o : cfg_stage_fix (fst (step v w o)) = cfg_stage_fix w.
+Proof.
+  destruct o as [T Q F|F| |p f]; simpl; try reflexivity.
+  - unfold apply. destruct (admits T Q w); [|reflexivity].
+    destruct (apply_flow v T F w) as [w1 r1] eqn:E. simpl.
+    assert (Hfresh : forall wa ra, fresh_flow v T F w = (wa, ra) -> cfg_stage_fix wa = cfg_stage_fix w).
+    { intros wa ra Ef. unfold fresh_flow in Ef.
+      destruct (crash_at F 25); [inv Ef; destruct (negb (resume w)); reflexivity|].
+      destruct (do_snapshot _ _ _ _) as [wb ok] eqn:Es.
+      pose proof (do_snapshot_cfg _ _ _ _ _ _ Es) as Sc.
+      assert (C0 : cfg_stage_fix wb = cfg_stage_fix w) by (rewrite Sc; destruct (negb (resume w)); reflexivity).
+      destruct ok; simpl in Ef; [|now inv Ef].
+      destruct (fails F 36 && negb (resume w)).
+      { inv Ef. unfold do_snapshot_nocurm. destruct (snap_loop _ _ _ _) as [b [l|]]; simpl; destruct (negb (resume w)); reflexivity. }
+      rewrite (after_snapshot_cfg _ _ _ _ _ _ _ Ef), cfg_set_phase. destruct (negb (resume w)); exact C0. }
+    unfold apply_flow in E. destruct (v_keep_fix v && resume w); [|eauto].
+    destruct (jr w) as [j|]; [|eauto]. destruct (snaps w (j_from j)) as [d|]; [|eauto].
+    destruct (s_meta d) as [[nv es]|]; [|eauto].
+    destruct (covered es (t_arts T) && _); [|now inv E].
+    unfold keep_flow in E. destruct (crash_at F 25); [now inv E|].
+    rewrite (after_snapshot_cfg _ _ _ _ _ _ _ E), cfg_set_phase. reflexivity.
+  - destruct (rollback_flow v F w) as [w1 rr] eqn:E.
+    pose proof (cfg_of_frame _ _ (rollback_frame _ _ _ _ _ E)) as Hc. destruct rr; exact Hc.
+Qed.
+
+Lemma step_spec0 v w o w' r m :
+  fixedv v -> step v w o = (w', (r, m)) -> Inv0 v w -> cfg_stage_fix w = true -> Inv0 v w' /\ m <> MonMixed.
+Proof.
+  intros (Hv & _ & Hk & Hst & Hsf) H Hi Hcfg. destruct o as [T Q F|F| |p f]; simpl in H.
   - destruct (apply v T Q F w) as [w1 r1] eqn:Ea. inv H.
-    destruct (apply_spec _ _ _ _ _ _ _ Hk Ea Hi) as (I1 & I2 & I3). split; [assumption|].
+    destruct (apply_spec _ _ _ _ _ _ _ Hk Ea Hi Hcfg) as (I1 & I2 & I3). split; [assumption|].
     destruct (admits T Q w) eqn:Ead.
     + destruct (I3 eq_refl) as (P1 & P2 & P3 & P4 & P5).
       destruct r; try discriminate.
@@ -790,6 +889,14 @@ Proof.
   - inv H. split; [|discriminate]. eapply Inv_frame4; [|left|exact Hi]; reflexivity.
 Qed.
 
+Lemma step_spec v w o w' r m :
+  fixedv v -> step v w o = (w', (r, m)) -> Inv v w -> Inv v w' /\ m <> MonMixed.
+Proof.
+  intros Hx H [Hi Hc]. destruct (step_spec0 _ _ _ _ _ _ Hx H Hi Hc) as [A B].
+  split; [|assumption]. split; [assumption|].
+  pose proof (step_cfg v w o) as Hs. rewrite H in Hs. simpl in Hs. congruence.
+Qed.
+
 Lemma run_never_mixed v : fixedv v -> forall ops w, Inv v w ->
   forall w' r m, In (w', (r, m)) (run v w ops) -> m <> MonMixed.
 Proof.
@@ -800,37 +907,13 @@ Proof.
 Qed.
 
 Lemma Inv_init v c f : Inv v (init_world c f).
-Proof. reflexivity. Qed.
+Proof. split; reflexivity. Qed.
 
 Lemma exec_Inv v : fixedv v -> forall ops w, Inv v w -> Inv v (exec v w ops).
 Proof.
   intros Hv. induction ops as [|o ops IH]; simpl; intros w Hi; [assumption|].
   apply IH. destruct (step v w o) as [w1 [r1 m1]] eqn:Es. simpl.
   now destruct (step_spec _ _ _ _ _ _ Hv Es Hi).
-Qed.
-
-(* only rollbacks and obstacle removal: the operator is trying to get back *)
-Definition rb_only (ops : list op) : Prop :=
-  Forall (fun o => match o with OpRollback _ | OpClear => True | _ => False end) ops.
-
-Lemma rb_only_restores v : fixedv v -> forall ops w b gi,
-  rb_only ops -> Inv v w -> g_base w = Some (true, b, gi) ->
-  forall w' r m, In (w', (r, m)) (run v w ops) -> r = RRbOk ->
-  forall p f, In (p, f) b -> fs w' p = f.
-Proof.
-  intros Hx. pose proof Hx as (Hv & _ & Hk & Hst & _).
-  induction ops as [|o ops IH]; simpl; intros w b gi Hrb Hi Hg w' r m Hin Hr; [contradiction|].
-  inv Hrb. destruct (step v w o) as [w1 [r1 m1]] eqn:Es.
-  assert (Hnext : Inv v w1 /\ g_base w1 = Some (true, b, gi) /\ (r1 = RRbOk -> forall p f, In (p, f) b -> fs w1 p = f)).
-  { split; [now destruct (step_spec _ _ _ _ _ _ Hx Es Hi)|].
-    destruct o as [T Q F|F| |p0 f0]; try contradiction; simpl in Es.
-    - destruct (rollback_flow v F w) as [w2 rr] eqn:Er.
-      destruct (rollback_step_spec _ _ _ _ _ Er Hi Hv Hst) as (R1 & R2 & R3).
-      destruct rr; inv Es; split; try congruence; try discriminate.
-      intros _. destruct (R3 eq_refl) as (b' & gi' & Hg' & Hr'). rewrite Hg in Hg'. inv Hg'. exact Hr'.
-    - inv Es. split; [assumption|discriminate]. }
-  destruct Hnext as (N1 & N2 & N3).
-  destruct Hin as [Heq|Hin]; [inv Heq; auto|eauto].
 Qed.
 
 (* ------------------------------------------------------------------ headline statements *)
@@ -844,7 +927,7 @@ Lemma no_mixed_success v T Q F w w' :
      is an artifact of this tarball, hence at the new version too *)
   (forall p f, In (p, f) (fst (baseline_of w T)) -> exists a, In a (t_arts T) /\ a_path a = p).
 Proof.
-  intros (_ & _ & Hk & _ & Hsf) Hi H. destruct (apply_spec _ _ _ _ _ _ _ Hk H Hi) as (_ & I2 & I3).
+  intros (_ & _ & Hk & _ & Hsf) Hi H. destruct (apply_spec _ _ _ _ _ _ _ Hk H (proj1 Hi) (proj2 Hi)) as (_ & I2 & I3).
   destruct (admits T Q w) eqn:Ea; [|destruct (I2 eq_refl); discriminate].
   destruct (I3 eq_refl) as (_ & P2 & _). destruct (P2 eq_refl) as (Q1 & Q2 & _ & Q4 & _ & Q6). splits; auto.
   intros p f Hin. pose proof (Q6 Hsf p f Hin) as Hm. apply in_map_iff in Hm as (a & Ha & Hin'). eauto.
@@ -856,7 +939,7 @@ Lemma failed_apply_restored v T Q F w w' :
   fixedv v -> Inv v w -> apply v T Q F w = (w', RErrRolledBack) ->
   forall p f, In (p, f) (fst (baseline_of w T)) -> fs w' p = f.
 Proof.
-  intros (Hv & _ & Hk & _ & _) Hi H p f Hin. destruct (apply_spec _ _ _ _ _ _ _ Hk H Hi) as (_ & I2 & I3).
+  intros (Hv & _ & Hk & _ & _) Hi H p f Hin. destruct (apply_spec _ _ _ _ _ _ _ Hk H (proj1 Hi) (proj2 Hi)) as (_ & I2 & I3).
   destruct (admits T Q w) eqn:Ea; [|destruct (I2 eq_refl); discriminate].
   destruct (I3 eq_refl) as (_ & _ & P3 & _). destruct (P3 eq_refl) as (_ & Q2 & _).
   rewrite (Q2 p f Hin). now apply normf_fixed.
@@ -868,7 +951,7 @@ Proof. unfold baseline_of. now intros ->. Qed.
 Lemma early_error_untouched v T Q F w w' :
   v_keep_fix v = true -> Inv v w -> apply v T Q F w = (w', RErr) -> fs w' = fs w /\ cur w' = cur w.
 Proof.
-  intros Hk Hi H. destruct (apply_spec _ _ _ _ _ _ _ Hk H Hi) as (_ & I2 & I3).
+  intros Hk Hi H. destruct (apply_spec _ _ _ _ _ _ _ Hk H (proj1 Hi) (proj2 Hi)) as (_ & I2 & I3).
   destruct (admits T Q w) eqn:Ea; [|destruct (I2 eq_refl) as [-> _]; auto].
   destruct (I3 eq_refl) as (_ & _ & _ & P4 & _). auto.
 Qed.
@@ -1009,6 +1092,13 @@ Qed.
 Lemma started_of_jr w w' : jr w' = jr w -> started w' = started w.
 Proof. unfold started. now intros ->. Qed.
 
+Lemma swap_artifact_jr w src p m w' b : swap_artifact w src p m = (w', b) -> jr w' = jr w.
+Proof.
+  unfold swap_artifact. intros H.
+  destruct src; [destruct (obst w p)|]; [inv H; auto| |inv H; auto].
+  destruct (staged_mode w p m); [|inv H; auto]. destruct (fs w p) as [[| |]|]; inv H; auto.
+Qed.
+
 Lemma jr_restore_ginst w : jr (restore_ginst w) = jr w.
 Proof. unfold restore_ginst. destruct (g_base w) as [[[[] ?] ?]|] eqn:E; reflexivity. Qed.
 Lemma jr_restore_curm v w d : jr (restore_curm v w d) = jr w.
@@ -1028,7 +1118,8 @@ Proof.
   destruct (seq_oc _); try (inv H; splits; auto; discriminate).
   destruct (restore_loop _ _ _) as [w2 ok] eqn:Er.
   pose proof Er as Er'. apply restore_loop_frame in Er' as (F2 & C2 & G2).
-  rewrite frame_set_obst in F2. simpl in C2, G2.
+  rewrite frame_installed in F2.
+  destruct (installed_same w (f_rob F) (f_rst F)) as (_ & Ic & Ig & _ & _). unfold installed in Ic, Ig. rewrite Ic in C2. rewrite Ig in G2.
   assert (Hjr2 : option_map j_from (jr w2) = Some (j_from j)).
   { rewrite (jfrom_of_frame4 _ _ (frame_frame4 _ _ F2)), Ej. reflexivity. }
   assert (St2 : started w2 = false).
@@ -1037,11 +1128,10 @@ Proof.
     { induction l as [|e r0 IH]; simpl; intros w0 w1 b H; [now inv H|].
       destruct (e_kind e); [apply IH in H; exact H|apply IH in H; exact H|].
       destruct (swap_artifact _ _ _ _) as [wx okx] eqn:E.
-      assert (jr wx = jr w0).
-      { unfold swap_artifact in E. destruct (s_bak d (e_path e)); [destruct (obst w0 (e_path e))|]; [inv E; auto| |inv E; auto].
-        destruct (new_mode _); [|inv E; auto]. destruct (fs w0 (e_path e)) as [[| |]|]; inv E; auto. }
+      assert (jr wx = jr w0) by (eapply swap_artifact_jr; eauto).
       destruct okx; [apply IH in H; congruence|injection H as <- _; assumption]. }
-    apply G in Er. simpl in Er. unfold started in *. now rewrite Er. }
+    apply G in Er. destruct (installed_same w (f_rob F) (f_rst F)) as (_ & _ & _ & _ & Ij). unfold installed in Ij.
+    rewrite Ij in Er. unfold started in *. now rewrite Er. }
   assert (J2w : J w2) by (apply (J_core w); auto; congruence).
   destruct ok; simpl in H.
   2:{ inv H. splits; [apply J_set_phase; auto|rewrite Hs; apply started_set_phase_false; auto|discriminate]. }
@@ -1164,12 +1254,6 @@ Proof.
   destruct (crash_at F 34); inv H; (split; [assumption|discriminate]).
 Qed.
 
-Lemma swap_artifact_jr w src p m w' b : swap_artifact w src p m = (w', b) -> jr w' = jr w.
-Proof.
-  unfold swap_artifact. intros H.
-  destruct src; [destruct (obst w p)|]; [inv H; auto| |inv H; auto].
-  destruct (new_mode m); [|inv H; auto]. destruct (fs w p) as [[| |]|]; inv H; auto.
-Qed.
 
 Lemma swap_loop_started arts : forall w w' b, swap_loop w arts = (w', b) -> started w = false -> started w' = false.
 Proof.
@@ -1200,9 +1284,14 @@ Proof.
   destruct (crash_at F 29); [inv H; split; [assumption|discriminate]|].
   destruct (swap_loop _ _) as [w7 sok] eqn:Esw.
   assert (S7 : started w7 = false).
-  { eapply swap_loop_started; [exact Esw|]. simpl. exact S5. }
+  { eapply swap_loop_started; [exact Esw|].
+    match goal with |- started (install_stale (with_obs ?x ?l) ?l2) = false =>
+      destruct (installed_same x l l2) as (_ & _ & _ & _ & Ij); unfold installed in Ij;
+      rewrite (started_of_jr _ _ Ij) end. exact S5. }
   apply swap_loop_frame in Esw as (F7 & C7 & G7).
-  rewrite frame_set_obst, !frame_set_phase in F7. simpl in C7, G7.
+  rewrite frame_installed, !frame_set_phase in F7.
+  match type of C7 with cur w7 = cur (install_stale (with_obs ?x ?l) ?l2) =>
+    destruct (installed_same x l l2) as (_ & Ic & Ig & _ & _); unfold installed in Ic, Ig; rewrite Ic in C7; rewrite Ig in G7 end.
   rewrite !cur_set_phase in C7. rewrite !ginst_set_phase in G7.
   assert (J7 : J w7) by (apply (J_core w2); auto; congruence).
   assert (Hg7 : g_base w7 = g_base w2) by now apply gbase_of_frame.
@@ -1303,7 +1392,7 @@ Lemma apply_flow_J v T F w w' r :
 Proof.
   intros (_ & Hv & Hk & Hst & _) Hi Hj H. unfold apply_flow in H. rewrite Hk in H. simpl in H.
   destruct (resume w) eqn:Hr; [|now destruct (fresh_flow_J _ _ _ _ _ _ Hv Hst Hj Hr H)].
-  destruct (resume_Inv _ _ Hi Hr) as (j & base & bv & Hjr & Hg & Hs).
+  destruct (resume_Inv _ _ (proj1 Hi) Hr) as (j & base & bv & Hjr & Hg & Hs).
   rewrite Hjr in H. destruct Hs as (d & nv & es & H1 & H2 & H3 & _). rewrite H2, H3 in H.
   destruct (covered es (t_arts T) && _); [|now inv H].
   now destruct (keep_flow_J _ _ _ _ _ _ _ _ _ _ Hv Hst Hj Hr Hjr H2 H3 H).
@@ -1338,7 +1427,7 @@ Proof.
   split; [now destruct (step_spec _ _ _ _ _ _ Hx Hs Hi)|].
   destruct o as [T Q F|F| |p f]; simpl in *; try discriminate.
   - destruct (apply v T Q F w) as [w1 r1] eqn:Ea. inv Hs.
-    destruct (apply_spec _ _ _ _ _ _ _ Hk Ea Hi) as (_ & I2 & I3).
+    destruct (apply_spec _ _ _ _ _ _ _ Hk Ea (proj1 Hi) (proj2 Hi)) as (_ & I2 & I3).
     destruct (admits T Q w) eqn:Ead; [|destruct (I2 eq_refl) as [_ ->]; discriminate].
     destruct (I3 eq_refl) as (_ & P2 & P3 & _). destruct r; try discriminate.
     + destruct (P2 eq_refl) as (_ & Hcur & _). unfold ver_new. rewrite Hcur, N.eqb_refl. discriminate.
@@ -1348,7 +1437,7 @@ Proof.
       assert (Hcw : cur w' = snd (baseline_of w T)).
       { unfold apply in Ea. rewrite Ead in Ea. unfold apply_flow in Ea. rewrite Hk in Ea. simpl in Ea.
         unfold baseline_of. destruct (resume w) eqn:Hr.
-        - destruct (resume_Inv _ _ Hi Hr) as (j & base & bv & Hjr & Hg & Hs).
+        - destruct (resume_Inv _ _ (proj1 Hi) Hr) as (j & base & bv & Hjr & Hg & Hs).
           rewrite Hjr in Ea. destruct Hs as (d & nv & es & H1 & H2 & H3 & _). rewrite H2, H3 in Ea.
           destruct (covered es (t_arts T) && _); [|discriminate]. rewrite Hg. simpl.
           destruct (keep_flow_J _ _ _ _ _ _ _ _ _ _ Hc Hst Hj Hr Hjr H2 H3 Ea) as [_ A]. eapply A; eauto.
@@ -1400,7 +1489,7 @@ Proof.
   destruct (seq_oc _); try (inv H; apply P; now rewrite !frame_set_phase).
   destruct (crash_at F 29); [inv H; apply P; now rewrite !frame_set_phase|].
   destruct (swap_loop _ _) as [w7 sok] eqn:Esw.
-  apply swap_loop_frame in Esw as (F7 & _ & _). rewrite frame_set_obst, !frame_set_phase in F7.
+  apply swap_loop_frame in Esw as (F7 & _ & _). rewrite frame_installed, !frame_set_phase in F7.
   destruct sok; simpl in H.
   - unfold post_swap in H.
     destruct (if needs_vpp (t_arts T) then vpp_seq F 0 else OGo);
@@ -1430,7 +1519,7 @@ Proof.
     destruct (apply_flow v T F w) as [w1 r1] eqn:E. simpl.
     unfold apply_flow in E. rewrite Hk in E. simpl in E.
     destruct (resume w) eqn:Hr.
-    + left. destruct (resume_Inv _ _ Hi Hr) as (j & base & bv & Hjr & Hg & Hs).
+    + left. destruct (resume_Inv _ _ (proj1 Hi) Hr) as (j & base & bv & Hjr & Hg & Hs).
       rewrite Hjr in E. destruct Hs as (d & nv & es & H1 & H2 & H3 & _). rewrite H2, H3 in E.
       destruct (covered es (t_arts T) && _); [|now inv E].
       unfold keep_flow in E. destruct (crash_at F 25); [now inv E|].
@@ -1456,7 +1545,7 @@ Proof.
 Qed.
 
 (* ---- liveness: a rollback without further faults succeeds ---- *)
-Definition quiet (F : faults) : Prop := f_fail F = [] /\ f_crash F = None /\ f_hr F = true /\ f_rob F = [].
+Definition quiet (F : faults) : Prop := f_fail F = [] /\ f_crash F = None /\ f_hr F = true /\ f_rob F = [] /\ f_rst F = [].
 
 Lemma quiet_cmd F l : quiet F -> cmd F l = OGo /\ chk F l = OGo /\ fails F l = false.
 Proof. intros (A & B & _). unfold cmd, chk, crash_at, fails. rewrite A, B. auto. Qed.
@@ -1479,7 +1568,10 @@ Proof.
   - apply Hnext; simpl; auto; [intros; now apply upd_other|rewrite upd_same; discriminate].
   - destruct fe as [[c0 m0| |]|]; simpl in Hk; rewrite ?Ek in Hk; try discriminate; try tauto.
     destruct Hk as [Hk1 Hk2].
-    unfold swap_artifact. rewrite Hk2, Hob. simpl.
+    unfold swap_artifact. rewrite Hk2, Hob.
+    assert (Sm : forall mx, staged_mode w (e_path e) (MFull mx) = Some mx).
+    { intros mx. unfold staged_mode. destruct (if cfg_stage_fix w then None else stale w (e_path e)); reflexivity. }
+    rewrite Sm.
     destruct (fs w (e_path e)) as [[| |]|] eqn:Ef;
       try (apply Hnext; simpl; auto; [intros; now apply upd_other|rewrite upd_same; discriminate]).
     exfalso. apply (Hnd e (or_introl eq_refl)). exact Ef.
@@ -1492,8 +1584,8 @@ Lemma rollback_can_succeed v F w base gi :
   (forall p f, In (p, f) base -> fs w p <> Some Dir) ->
   exists w', rollback_flow v F w = (w', RbOk).
 Proof.
-  intros (_ & _ & _ & Hst & _) Hi Hj Hq Hg Hob Hnd.
-  unfold Inv in Hi. rewrite Hg in Hi. destruct Hi as (fr & d & nv & es & H1 & H2 & H3 & [E1 _] & _).
+  intros (_ & _ & _ & Hst & _) [Hi _] Hj Hq Hg Hob Hnd.
+  unfold Inv0 in Hi. rewrite Hg in Hi. destruct Hi as (fr & d & nv & es & H1 & H2 & H3 & [E1 _] & _).
   destruct Hj as (_ & _ & J3). rewrite Hg in J3. destruct J3 as (_ & _ & Hs). simpl in Hs.
   unfold rollback_flow. destruct (jr w) as [j|] eqn:Ej; [|discriminate]. simpl in H1. inv H1.
   unfold started in Hs. rewrite Ej in Hs. rewrite Hs, andb_false_r, H2, H3.
@@ -1501,8 +1593,8 @@ Proof.
   assert (S1 : seq_oc [chk F 41; cmd F 11; chk F 42; cmd F 12; chk F 43]%N = OGo).
   { unfold seq_oc. destruct (Hc 41%N) as (_ & -> & _). destruct (Hc 11%N) as (-> & _ & _).
     destruct (Hc 42%N) as (_ & -> & _). destruct (Hc 12%N) as (-> & _ & _). destruct (Hc 43%N) as (_ & -> & _). reflexivity. }
-  rewrite S1. destruct Hq as (_ & _ & Hhr & Hrob). rewrite Hrob. unfold install_ob.
-  destruct (restore_loop_succeeds v d base (rev es) (set_obst w (obst w))) as [w2 Hr].
+  rewrite S1. destruct Hq as (_ & _ & Hhr & Hrob & Hrst). rewrite Hrob, Hrst. simpl. unfold with_obs, install_ob.
+  match goal with |- context [restore_loop ?x d (rev es)] => destruct (restore_loop_succeeds v d base (rev es) x) as [w2 Hr] end.
   - intros e He. apply E1. now apply in_rev.
   - exact Hob.
   - intros e He. simpl. destruct (E1 e (proj2 (in_rev _ _) He)) as (f & Hin & _). eapply Hnd; eauto.
@@ -1528,7 +1620,7 @@ Lemma swap_artifact_other w src p m w' b :
 Proof.
   unfold swap_artifact. intros H q Hq.
   destruct src; [destruct (obst w p)|]; [inv H; auto| |inv H; auto].
-  destruct (new_mode m); [|inv H; auto].
+  destruct (staged_mode w p m); [|inv H; auto].
   destruct (fs w p) as [[| |]|]; inv H; simpl; auto; now apply upd_other.
 Qed.
 
@@ -1574,7 +1666,8 @@ Proof.
   destruct (seq_oc _); try (now inv H).
   destruct (restore_loop _ _ _) as [w2 ok] eqn:Er.
   assert (R : fs w2 q = fs w q).
-  { rewrite (restore_loop_other _ _ _ _ _ Er q); [reflexivity|].
+  { rewrite (restore_loop_other _ _ _ _ _ Er q);
+      [destruct (installed_same w (f_rob F) (f_rst F)) as (_ & _ & _ & If & _); unfold installed in If; now rewrite If|].
     intros Hin. apply in_map_iff in Hin as (e & <- & He). apply Hq.
     apply in_rev in He. eapply (Hs (j_from j)); eauto. rewrite Ej. reflexivity. }
   destruct ok; simpl in H; [|inv H; now rewrite fs_set_phase].
@@ -1653,8 +1746,11 @@ Proof.
   destruct (seq_oc _); try (inv H; apply Hexit; [now rewrite !frame_set_phase|now rewrite !fs_set_phase]).
   destruct (crash_at F 29); [inv H; apply Hexit; [now rewrite !frame_set_phase|now rewrite !fs_set_phase]|].
   destruct (swap_loop _ _) as [w7 sok] eqn:Esw.
-  pose proof (swap_loop_other _ _ _ _ Esw) as O7. simpl in O7. rewrite !fs_set_phase in O7.
-  apply swap_loop_frame in Esw as (F7 & _ & _). rewrite frame_set_obst, !frame_set_phase in F7.
+  pose proof (swap_loop_other _ _ _ _ Esw) as O7.
+  match type of O7 with context [fs (install_stale (with_obs ?x ?l) ?l2)] =>
+    destruct (installed_same x l l2) as (_ & _ & _ & If & _); unfold installed in If; rewrite If in O7 end.
+  rewrite !fs_set_phase in O7.
+  apply swap_loop_frame in Esw as (F7 & _ & _). rewrite frame_installed, !frame_set_phase in F7.
   assert (Sc7 : rb_scope w7 ps) by (eapply rb_scope_frame4; [|exact Sc2]; now apply frame_frame4).
   assert (K7 : kx w7 = kx w2) by now apply kx_of_frame.
   assert (O7' : forall q, ~ In q ps -> fs w7 q = fs w2 q).
@@ -1721,9 +1817,9 @@ Definition K (w : world) : Prop :=
   | _ => True
   end.
 
-Lemma Inv_scope v w base gi : Inv v w -> g_base w = Some (true, base, gi) -> rb_scope w (map fst base).
+Lemma Inv_scope v w base gi : Inv0 v w -> g_base w = Some (true, base, gi) -> rb_scope w (map fst base).
 Proof.
-  unfold Inv. intros Hi Hg. rewrite Hg in Hi. destruct Hi as (fr & d & nv & es & H1 & H2 & H3 & [E1 _] & _).
+  unfold Inv0. intros Hi Hg. rewrite Hg in Hi. destruct Hi as (fr & d & nv & es & H1 & H2 & H3 & [E1 _] & _).
   intros k d0 nv0 es0 Hk Hd Hm e He. rewrite H1 in Hk. inv Hk. rewrite H2 in Hd. inv Hd. rewrite H3 in Hm. inv Hm.
   destruct (E1 e He) as (f & Hin & _). apply in_map_iff. exists (e_path e, f). auto.
 Qed.
@@ -1741,10 +1837,10 @@ Proof.
   intros (_ & _ & Hkf & Hst & _) Hi Hk. destruct o as [T Q F|F| |p f]; simpl.
   - destruct (apply v T Q F w) as [w1 r1] eqn:Ea. simpl. pose proof Ea as Ea0. unfold apply in Ea.
     destruct (admits T Q w) eqn:Ead; [|inv Ea; exact Hk].
-    destruct (apply_flow_spec _ _ _ _ _ _ Hkf Hi Ea (admits_nodup _ _ _ Ead)) as (_ & _ & _ & _ & P5 & _).
+    destruct (apply_flow_spec _ _ _ _ _ _ Hkf (proj1 Hi) Ea (admits_nodup _ _ _ Ead) (proj2 Hi)) as (_ & _ & _ & _ & P5 & _).
     unfold apply_flow in Ea. rewrite Hkf in Ea. simpl in Ea. unfold baseline_of in P5.
     destruct (resume w) eqn:Hr.
-    + destruct (resume_Inv _ _ Hi Hr) as (j & base & bv & Hjr & Hg & Hs). rewrite Hg in P5. simpl in P5.
+    + destruct (resume_Inv _ _ (proj1 Hi) Hr) as (j & base & bv & Hjr & Hg & Hs). rewrite Hg in P5. simpl in P5.
       rewrite Hjr in Ea. destruct (snap_ok_entry_paths _ _ _ _ Hs) as (d & nv & es & H1 & H2 & H3 & H4).
       rewrite H2, H3 in Ea. destruct (covered es (t_arts T)) eqn:Hc; simpl in Ea; [|inv Ea; exact Hk].
       destruct (negb (v_same_fix v) || covered_rev es (t_arts T)); [|inv Ea; exact Hk].
@@ -1768,7 +1864,7 @@ Proof.
       destruct (g_base w) as [[[[] b] gi]|] eqn:Eg; auto.
       pose proof (kx_of_frame _ _ Hf) as Hkx. unfold kx in Hkx. injection Hkx as -> ->.
       unfold K in Hk. rewrite Eg in Hk. intros Hc. destruct (Hk Hc) as [K1 K2]. split; [|exact K2].
-      intros q Hq. rewrite (rollback_other _ _ _ _ _ _ Er (Inv_scope _ _ _ _ Hi Eg) q Hq). auto. }
+      intros q Hq. rewrite (rollback_other _ _ _ _ _ _ Er (Inv_scope _ _ _ _ (proj1 Hi) Eg) q Hq). auto. }
     destruct rr; exact H.
   - exact Hk.
   - unfold K. simpl. destruct (g_base w) as [[[[] b] gi]|]; auto. discriminate.
@@ -1822,12 +1918,12 @@ Proof.
   assert (Hk' : K w') by (pose proof (step_K v w o Hx Hi Hk) as X; now rewrite Hs in X).
   destruct o as [T Q F|F| |p f]; simpl in *; try discriminate.
   - destruct (apply v T Q F w) as [w1 r1] eqn:Ea. inv Hs. destruct r; try discriminate.
-    destruct (apply_spec _ _ _ _ _ _ _ Hkf Ea Hi) as (_ & I2 & I3).
+    destruct (apply_spec _ _ _ _ _ _ _ Hkf Ea (proj1 Hi) (proj2 Hi)) as (_ & I2 & I3).
     destruct (admits T Q w) eqn:Ead; [|destruct (I2 eq_refl); discriminate].
     destruct (I3 eq_refl) as (_ & _ & P3 & _). destruct (P3 eq_refl) as (Q1 & Q2 & _).
     eapply mon_resolved_ok; eauto. intros p f Hin. rewrite (Q2 p f Hin). now apply normf_fixed.
   - destruct (rollback_flow v F w) as [w1 rr] eqn:Er.
-    destruct (rollback_step_spec _ _ _ _ _ Er Hi Hv Hst) as (_ & R2 & R3).
+    destruct (rollback_step_spec _ _ _ _ _ Er (proj1 Hi) Hv Hst) as (_ & R2 & R3).
     destruct rr; inv Hs; try discriminate.
     destruct (R3 eq_refl) as (base & gi & Hg & Hr).
     eapply mon_resolved_ok; [rewrite R2; exact Hg|assumption|exact Hr].
@@ -1851,12 +1947,12 @@ Lemma reachable_rollback_succeeds c f ops F base gi :
 Proof.
   intros w Hg Hq Hnd. destruct (reachable_IJ c f ops) as [Hi Hj]. fold w in Hi, Hj.
   set (wc := fst (step repaired w OpClear)).
-  assert (Hic : Inv repaired wc) by (eapply Inv_frame; [|left|exact Hi]; reflexivity).
+  assert (Hic : Inv repaired wc) by (split; [eapply Inv_frame; [|left|exact (proj1 Hi)]; reflexivity|exact (proj2 Hi)]).
   assert (Hjc : J wc) by (apply (J_core w); auto).
   assert (Hgc : g_base wc = Some (true, base, gi)) by exact Hg.
   destruct (rollback_can_succeed repaired F wc base gi fixedv_repaired Hic Hjc Hq Hgc) as [w' Hr];
     [reflexivity|exact Hnd|].
-  destruct (rollback_step_spec _ _ _ _ _ Hr Hic eq_refl eq_refl) as (_ & R2 & R3).
+  destruct (rollback_step_spec _ _ _ _ _ Hr (proj1 Hic) eq_refl eq_refl) as (_ & R2 & R3).
   destruct (R3 eq_refl) as (b' & gi' & Hg' & Hrest). rewrite Hgc in Hg'. inv Hg'.
   destruct (rollback_J repaired _ _ _ _ eq_refl eq_refl Hjc Hr) as (_ & _ & V).
   exists w', (mon_restored w'). simpl. rewrite Hr. splits; auto.
@@ -1884,7 +1980,7 @@ Lemma stopped_at_started_untouched c f ops T Q F w' r :
   (forall p, fs w' p = fs w p) /\ cur w' = cur w.
 Proof.
   intros w Ha Hp. destruct (reachable_IJ c f ops) as [Hi Hj]. fold w in Hi, Hj.
-  destruct (apply_spec repaired _ _ _ _ _ _ eq_refl Ha Hi) as (_ & I2 & I3).
+  destruct (apply_spec repaired _ _ _ _ _ _ eq_refl Ha (proj1 Hi) (proj2 Hi)) as (_ & I2 & I3).
   destruct (admits T Q w) eqn:Ead; [|destruct (I2 eq_refl) as [-> _]; auto].
   assert (Hj' : J w').
   { pose proof (step_J repaired w (OpApply T Q F) fixedv_repaired Hi Hj) as X. simpl in X. now rewrite Ha in X. }
@@ -1913,7 +2009,7 @@ Proof.
   unfold base_part in Hb. destruct (g_base w') as [[[b0 b1] v1]|] eqn:Eg; [|discriminate]. inv Hb.
   destruct o as [T Q F|F| |p0 f0]; simpl in Hs.
   - destruct (apply v T Q F w) as [w1 r1] eqn:Ea. inv Hs. simpl in Hr. destruct r; try contradiction.
-    destruct (apply_spec _ _ _ _ _ _ _ Hk Ea Hi) as (_ & I2 & I3).
+    destruct (apply_spec _ _ _ _ _ _ _ Hk Ea (proj1 Hi) (proj2 Hi)) as (_ & I2 & I3).
     destruct (admits T Q w) eqn:Ead; [|destruct (I2 eq_refl); discriminate].
     destruct (I3 eq_refl) as (_ & _ & P3 & _). destruct (P3 eq_refl) as (Q1 & Q2 & _).
     rewrite Eg in Q1. inv Q1. split.
@@ -1921,7 +2017,7 @@ Proof.
     + simpl in Hver. unfold ver_restored in Hver. rewrite Eg in Hver.
       destruct (N.eqb_spec (cur w') (snd (baseline_of w T))); [assumption|congruence].
   - destruct (rollback_flow v F w) as [w1 rr] eqn:Er.
-    destruct (rollback_step_spec _ _ _ _ _ Er Hi Hv Hst) as (_ & R2 & R3).
+    destruct (rollback_step_spec _ _ _ _ _ Er (proj1 Hi) Hv Hst) as (_ & R2 & R3).
     destruct rr; inv Hs; simpl in Hr; try contradiction.
     destruct (R3 eq_refl) as (base & gi & Hg & Hrest). rewrite R2, Hg in Eg. inv Eg. split; [exact Hrest|].
     simpl in Hver. unfold ver_restored in Hver. rewrite R2, Hg in Hver.
